@@ -285,7 +285,7 @@ pub fn run(env: &Env, rep: &Report) {
     rep.assume("cases run in child processes (one global hook callback per process); gate waits are bounded (300 ms), an expired wait is counted as plan deviation and never as a failure");
     let pool = IsoPool::new(&env.prop, "query", std::time::Duration::from_secs(60));
     let w = workers();
-    let small = small_scenarios(rep.seed, env.tier.pick(12_000, 300_000));
+    let small = small_scenarios(rep.seed, env.tier.pick(30_000, 400_000));
     let chunk = (small.len() + w - 1) / w;
     std::thread::scope(|s| {
         for part in small.chunks(chunk.max(1)) {
@@ -296,7 +296,7 @@ pub fn run(env: &Env, rep: &Report) {
         }
     });
     rep.note("all-interleavings", "for each sampled scenario with <= 6 Distances commands on >= 2 shards: every interleaving of the per-shard FIFO queues x every position of the caller's step".into());
-    par_generated(rep, "query", query_case, env.tier.pick(30_000, 800_000), w, iso_check(&pool, rep));
+    par_generated(rep, "query", query_case, env.tier.pick(100_000, 1_500_000), w, iso_check(&pool, rep));
     rep.set_extra("child_timeouts", serde_json::json!(pool.timeouts.load(std::sync::atomic::Ordering::Relaxed)));
 }
 
